@@ -24,12 +24,14 @@ RULE = ("case = a generated state-building history (3-9 segments of related ops 
         "oracle feeder delegations, prevotes, "
         "votes, tallies (rates, miss counters), reward allocations) -> ExportAppStateAndValidators -> fresh app InitChain "
         "-> second export, ITERATED for 1-3 generations (export -> import -> 0-5 blocks, optionally a 31-min / day-long one -> export -> import ...; "
-        "each import with no initial height / 1 (InitChain context height 0), the exported height or a later one; one full "
+        "each import with no initial height / 1 (InitChain context height 0), the exported height or a later one; the chain's own "
+        "genesis may define a NOT-YET-STARTED epoch scheduled 1 h / 3 d / 30 d / 400 d ahead, and import times are placed one second "
+        "BEFORE, exactly AT or AFTER the scheduled start while it has not started (as well as at random offsets); one full "
         "round-trip observation per generation, so every section is compared after every generation and a section silently "
         "dropped by a swallowed InitGenesis error is a violation); values are drawn with a per-case hub so that many-to-one relations occur in every collection whose "
         "values can coincide (several validators -> one feeder, denoms -> one admin/creator, contracts -> one deployer/"
         "withdrawer/bytecode, equal rates / storage words / rewards); an import that panics or is rejected by genesis validation "
-        "is a violation with the history as replay; 12 fixed openers first; non-trivial = the exported state populates at least 3 of the feature "
+        "is a violation with the history as replay; 15 fixed openers first; non-trivial = the exported state populates at least 3 of the feature "
         "groups {contract storage, funtokens, tf denoms, oracle pending votes/prevotes/rewards, oracle rates/miss, "
         "fee shares, inflation/epochs advanced, sudoers edited}; distinct = distinct input")
 ASSUMPTIONS = [
@@ -288,6 +290,8 @@ def classify(rec):
         ks.append("state:started-epoch-at-height-0")
     if gen > 0:
         ks.append("state:exported-from-a-chain-started-from-an-export")
+    if rec.get("sched"):
+        ks.append("state:scheduled-epoch-not-started,import-time-%s-its-start" % rec["sched"])
     toggles = [op["a"] % 2 for op in rec["input"]["ops"] if op["k"] == "infl_toggle"]
     if g["infl"]["skipped"] > 0:
         ks.append("state:skipped-epochs-inflation-" + ("on" if toggles and toggles[-1] == 1 else "off"))
@@ -422,12 +426,15 @@ MANIFEST = {
                  "generations, each imported at its own height >= 0 incl. 0: every export accepted, every imported state "
                  "well-formed again, n-th export = first export with epoch heights re-based), epochs init includes "
                  "GenesisState/EpochInfo.Validate and the module's swallowed error, C20_epochs_export_init_idempotent, and "
-                 "C20_epochs_height_zero_invalid_refuted for the validator 'a counting epoch needs a positive start height'. "
+                 "C20_epochs_height_zero_invalid_refuted for the validator 'a counting epoch needs a positive start height'; "
+                 "C20_epochs_init_keeps_start_time (any import time, started or not: start_time of every stored definition is kept) "
+                 "and C20_epochs_start_time_rewrite_refuted for the widened AddEpochInfo condition. "
                  "Tie to /repo on every run: "
                  "(a) generated facts — every collections.New* call of the seven keepers, the GenesisState fields, which of them "
                  "InitGenesis reads / ExportGenesis fills, and the formulas the model is parameterised by (RewardsID, tf bank metadata, "
                  "asset.Pair JSON codec, the shape of every write to FeeShare.WithdrawerAddress in x/devgas, the set of rejecting "
-                 "conditions of EpochInfo.Validate, whether x/epochs discards the InitGenesis error) — with the "
+                 "conditions of EpochInfo.Validate, whether x/epochs discards the InitGenesis error, the condition under which "
+                 "AddEpochInfo rewrites StartTime) — with the "
                  "obligation that every persistent collection is carried by a used genesis field, derived, or on the exception "
                  "list; (b) correspondence — generated state-building histories on the real app (contracts, self-destructs, "
                  "FunTokens both ways, tf denoms/hand-over/metadata, sudoers, inflation, epochs, x/devgas registry message histories "
